@@ -71,20 +71,22 @@ func rowListToMap(rows []types.RowImage, primaryKeyList []string) map[string]map
 	for _, row := range rows {
 		fieldMap := make(map[string]interface{}, 0)
 		var rowKey string
-		var firstUnderline bool
 
 		for _, column := range row.Columns {
-			for i, key := range primaryKeyList {
+			fieldMap[strings.ToUpper(column.ColumnName)] = column.Value
+		}
+		// the key parts in the order of the primary key: the columns of two images of the same row
+		// (statement column list, SELECT *) need not come in the same order
+		for i, key := range primaryKeyList {
+			for _, column := range row.Columns {
 				if column.ColumnName == key {
-					if firstUnderline && i > 0 {
+					if i > 0 {
 						rowKey += "_##$$_"
 					}
 					// todo make value more accurate
 					rowKey = fmt.Sprintf("%v%v", rowKey, column.GetActualValue())
-					firstUnderline = true
 				}
 			}
-			fieldMap[strings.ToUpper(column.ColumnName)] = column.Value
 		}
 		rowMap[rowKey] = fieldMap
 	}
